@@ -258,12 +258,12 @@ func (r *c02run[V]) backdoor(rng *core.Rng) {
 		case col.Updatable[V]:
 			if len(r.model) > 1 {
 				what = "Updatable.SetValue"
-				x.SetValue(1, r.model[len(r.model)-1])
+				x.SetValue(1, r.model[len(r.model)-1].cands[0])
 			}
 		case col.Expandable[V]:
 			if len(r.model) > 0 {
 				what = "Expandable.AppendValue"
-				x.AppendValue(r.model[0])
+				x.AppendValue(r.model[0].cands[0])
 			}
 		}
 	})
